@@ -124,6 +124,21 @@ def run(tier):
     big = list(families.g_peep(tier)) + list(families.g_peep_random(4242, 3000 if tier == 'quick' else 12000, depth=4))
     import families3
     big += [p for p in families3.g_deep('quick') if p.pid.startswith(('deep/idx/', 'deep/nest/', 'deep/cmp/', 'deep/tern/', 'deep/bare/'))]
+    # statements whose acceptance and scratch-cell use depend on what the generator records while it emits a -Wperf warning: an element
+    # indexed by a variable / expression (Y parked in cctmp) combined with an operand computed in A, a call, a register comparison
+    from cast import For, Assign, Inc, Block, Index, If, Call, ExprS
+    from families import V, C, A, B, mkprog
+    from families3 import F1
+    ys = [('sub-shl', lambda: A(V('vc'), B('-', Index('arr', V('vb')), B('<<', V('vd'), C(1))))), ('sub-call', lambda: A(V('vc'), B('-', Index('arr', V('vb')), Call('f', [V('vd')])))),
+          ('sub-and', lambda: A(V('vc'), B('-', Index('arr', B('+', V('vb'), C(1))), B('&', V('vd'), C(3))))), ('cmp-X', lambda: If(B('<', Index('arr', V('vb')), V('X')), A(V('vc'), C(1)))),
+          ('cmp-Y', lambda: If(B('==', Index('arr', V('vb')), V('Y')), A(V('vc'), C(1)))), ('add', lambda: A(V('vc'), B('+', Index('arr', V('vb')), V('vd')))), ('two', lambda: A(V('vc'), B('-', Index('arr', V('vb')), Index('brr', V('vd'))))),
+          ('st', lambda: A(Index('arr', V('vb')), B('-', V('vc'), B('<<', V('vd'), C(1))))), ('ptr', lambda: A(V('vc'), B('-', Index('pp', V('vb')), B('<<', V('vd'), C(1))))), ('w', lambda: A(V('wa'), B('-', Index('warr', V('vb')), V('wb')))),
+          ('shl-sub', lambda: A(V('vc'), B('-', B('<<', V('vd'), C(1)), Index('arr', V('vb'))))), ('k-idx', lambda: A(V('vc'), B('-', Index('pp', C(2)), B('<<', V('vd'), C(1)))))]
+    for yn, y in ys:
+        fn = [F1()] if yn == 'sub-call' else []
+        big.append(mkprog('opt/ysave/%s/bare' % yn, [y()], funcs=fn))
+        big.append(mkprog('opt/ysave/%s/yloop' % yn, [For(Assign(V('Y'), '=', C(0)), B('!=', V('Y'), C(3)), Inc('++', False, V('Y')), Block([y(), A(Index('brr', V('Y')), V('vc'))]))], funcs=fn))
+        big.append(mkprog('opt/ysave/%s/after' % yn, [A(V('Y'), C(2)), y(), A(Index('brr', V('Y')), V('vc'))], funcs=fn))
     optv = [('plain', [], None), ('insert_code', ['--insert-code'], None), ('insert_code+Wall', ['--insert-code', '-W', 'all'], None), ('Wall', ['-W', 'all'], None), ('Wperf', ['-W', 'perf'], None)]
     stats, smp, results = runner.relational(rep, big, optv, 'plain', args_base=['-O1'], reject_is_violation=True)
     allstats['options/-O1'] = dict(stats); samples += smp[:2]
